@@ -105,6 +105,7 @@ func Start(id, level string) *Run {
 	}
 	r.Deadline = r.start.Add(budget)
 	r.sampleEvery = 1
+	debug.SetGCPercent(800) // the checks allocate many short-lived objects; trade memory for time
 	return r
 }
 
@@ -260,7 +261,13 @@ func (r *Run) parallel(total int64, mk func() (func(i int64), func())) {
 		}
 	}
 	var next atomic.Int64
-	const chunk = 256
+	chunk := total / int64(workers*8)
+	if chunk > 256 {
+		chunk = 256
+	}
+	if chunk < 1 {
+		chunk = 1
+	}
 	var wg sync.WaitGroup
 	var stop atomic.Bool
 	for w := 0; w < workers; w++ {
@@ -281,7 +288,7 @@ func (r *Run) parallel(total int64, mk func() (func(i int64), func())) {
 				for i := lo; i < hi; i++ {
 					fn(i)
 				}
-				if lo%(chunk*64) == 0 && r.Expired() {
+				if (lo/chunk)%64 == 0 && r.Expired() {
 					stop.Store(true)
 				}
 			}
